@@ -84,9 +84,16 @@ func registerVerif(reg func(string, func(*Interp, []Value) Value)) {
 		}
 		s := newSched(ip)
 		ip.W.sched = s
-		for i, f := range fs.A {
+		// every rotation of the thread order is explored, so that each body also runs in the state
+		// the other bodies leave behind
+		rot := 0
+		if len(fs.A) > 1 {
+			rot = ip.W.Choose(len(fs.A))
+		}
+		for k := range fs.A {
+			i := (k + rot) % len(fs.A)
 			s.begin(ip, i+1)
-			ip.CallFunc(f)
+			ip.CallFunc(fs.A[i])
 			s.end(ip)
 		}
 		s.finish(ip)
